@@ -48,7 +48,11 @@ def main():
             res['check_seconds'] = round(time.time() - t0, 1)
             lines = c.stdout.splitlines()
             res['violation_lines'] = [l for l in lines if l.startswith('VIOLATION')][:5]
-            res['violation_keys'] = [l.strip()[:200] for l in lines if l.startswith('  ')][:8]
+            keys = [l.strip() for l in lines if l.startswith('  ')]
+            res['violation_keys'] = [k[:200] for k in keys][:12]
+            res['n_violation_keys'] = len(keys)
+            res['deductive_obligations_open'] = [k.split(' :: ')[0][11:] for k in keys if k.startswith('OBLIGATION ')][:12]
+            res['bounded_clauses_violated'] = [k.split(' :: ')[0] for k in keys if not k.startswith('OBLIGATION ')][:12]
             res['other'] = [l[:200] for l in lines if l.startswith(('UNDECIDED', 'CHECKER-ERROR'))][:5]
             res['detected'] = c.returncode == 1 and bool(res['violation_lines'])
         finally:
@@ -60,6 +64,29 @@ def main():
                   res.get('error', ''), (res.get('violation_keys') or [''])[0][:120], flush=True)
     # restore the evidence files of the unchanged tree is the caller's business (re-run the checks on /repo)
     json.dump(summary, open(os.path.join(SEEDED, 'last_run_%s.json' % tier), 'w'), indent=1)
+    write_summary()
+
+
+def write_summary():
+    rows = []
+    for sid in sorted(d for d in os.listdir(SEEDED) if os.path.isdir(os.path.join(SEEDED, d))):
+        d = os.path.join(SEEDED, sid)
+        try:
+            meta = json.load(open(os.path.join(d, 'meta.json')))
+            res = json.load(open(os.path.join(d, 'result.json'))) if os.path.exists(os.path.join(d, 'result.json')) else {}
+            conf = json.load(open(os.path.join(d, 'confirmed.json'))) if os.path.exists(os.path.join(d, 'confirmed.json')) else {}
+        except Exception as e:
+            rows.append('| %s | unreadable: %s | | | | |' % (sid, e))
+            continue
+        ded = res.get('deductive_obligations_open') or []
+        bnd = res.get('bounded_clauses_violated') or []
+        tier = ('deductive + bounded' if ded and bnd else 'deductive' if ded else 'bounded' if bnd else '-')
+        rows.append('| %s | %s | %s | %s | %s | %s |' % (sid, str(meta.get('summary', ''))[:140].replace('|', '/'), conf.get('confirmed'), res.get('detected'), tier,
+                                                    ('; '.join((ded[:2] + bnd[:2])))[:220].replace('|', '/')))
+    with open(os.path.join(SEEDED, 'SUMMARY.md'), 'w') as fh:
+        fh.write('# Seeded changes: which check catches which\n\nGenerated by tools/run_seeded.py (quick tier unless noted). `confirmed` = tools/confirm_seeded.py (patch applies, imports, 61 baseline tests pass, demo 0 -> 1).\n\n')
+        fh.write('| id | change | confirmed | detected | tier | first clauses / obligations |\n|---|---|---|---|---|---|\n')
+        fh.write('\n'.join(rows) + '\n')
 
 
 if __name__ == '__main__':
